@@ -640,3 +640,33 @@ void h_todo(void)
   V_COVER(g_nins == 2); V_COVER(g_requested && g_nT[0] > 1 && g_nT[1] > 0); V_COVER(g_fail_seen && g_info_created);
 }
 #endif
+
+/* ================= senderadd: per-recipient (VERP) sender expansion (C10) ================= */
+#ifdef P_SENDERADD
+#define NS 10
+static char snd[NS + 1], rcp[NS + 1]; stralloc g_out; int g_np; const char *g_pp[8]; unsigned g_pl[8]; int g_pk[8];   /* pieces appended: pointer, length, kind 1 catb 2 cats */
+int stralloc_catb(stralloc *sa, char *s, unsigned int n) { V_ASSERT(sa == &g_out && g_np < 8, "C10: supporting"); g_pp[g_np] = s; g_pl[g_np] = n; g_pk[g_np] = 1; ++g_np; return 1; }
+int stralloc_cats(stralloc *sa, char *s) { V_ASSERT(sa == &g_out && g_np < 8, "C10: supporting"); g_pp[g_np] = s; g_pl[g_np] = 0; g_pk[g_np] = 2; ++g_np; return 1; }
+void h_senderadd(void)
+{
+  unsigned sl = ND_UINT() % (NS + 1), rl = ND_UINT() % (NS + 1), k; int lastat_s = -1, lastat_r = -1, verp;
+  for (k = 0; k < NS; ++k) { snd[k] = ND_CHAR(); rcp[k] = ND_CHAR(); if (k < sl) V_ASSUME(snd[k] != 0); if (k < rl) V_ASSUME(rcp[k] != 0); }
+  snd[sl] = 0; rcp[rl] = 0; g_np = 0;
+  verp = sl >= 4 && snd[sl - 4] == '-' && snd[sl - 3] == '@' && snd[sl - 2] == '[' && snd[sl - 1] == ']';
+  if (verp) for (k = 0; k + 4 < sl; ++k) if (snd[k] == '@') lastat_s = (int)k;
+  for (k = 0; k < rl; ++k) if (rcp[k] == '@') lastat_r = (int)k;
+  senderadd(&g_out, snd, rcp);
+  if (verp && lastat_s >= 0 && lastat_r >= 0) {
+    /* owner-@host-@[]  ->  owner- recipbox = reciphost @ host */
+    V_ASSERT(g_np == 6, "C10: a per-recipient (VERP) sender is expanded into six pieces");
+    V_ASSERT(g_pp[0] == snd && g_pl[0] == (unsigned)lastat_s && g_pk[0] == 1, "C10: VERP: first the sender up to its last @ before the marker");
+    V_ASSERT(g_pp[1] == rcp && g_pl[1] == (unsigned)lastat_r && g_pk[1] == 1, "C10: VERP: then the recipient's mailbox");
+    V_ASSERT(g_pk[2] == 2 && g_pp[2][0] == '=' && !g_pp[2][1], "C10: VERP: then =");
+    V_ASSERT(g_pk[3] == 2 && g_pp[3] == rcp + lastat_r + 1, "C10: VERP: then the recipient's host");
+    V_ASSERT(g_pk[4] == 2 && g_pp[4][0] == '@' && !g_pp[4][1], "C10: VERP: then @");
+    V_ASSERT(g_pk[5] == 1 && g_pp[5] == snd + lastat_s + 1 && g_pl[5] == sl - 5 - (unsigned)lastat_s, "C10: VERP: then the sender's host without the -@[] marker");
+  } else
+    V_ASSERT(g_np == 1 && g_pk[0] == 2 && g_pp[0] == snd, "C10: every other sender is passed on unchanged");
+  V_COVER(verp && lastat_s >= 0 && lastat_r >= 0); V_COVER(verp && lastat_r < 0);
+}
+#endif
